@@ -155,7 +155,7 @@ class Layout:
                 G.amr_block(wa, g, self.ndim)
         return wa.pos
 
-    def expected(self, lib, info, lmax=None, cpus=None, actual_masks=None, level_pred=None):
+    def expected(self, lib, info, lmax=None, cpus=None, actual_masks=None, level_pred=None, extra_mask=None):
         """dict variable -> (list of piece arrays in order) rebuilt from the grammar.  `actual_masks`:
         the selection masks the code built, in block order; each is proved to be the leaf mask and is
         then used to select the expected rows (so that code and specification share one row map)"""
@@ -188,29 +188,6 @@ class Layout:
                         out = val if out is None else core.ite(SV.lift(idx[0]) < (ind + 1) * g, val, out)
                     return out
 
-                keep = True if level_pred is None else bool(level_pred(l + 1))
-                if not keep:
-                    mask = snp.ndarray.from_elem(lambda idx: False, (n,), "bool")
-                elif l < lmax - 1:
-                    mask = snp.ndarray.from_elem(lambda idx, s=son_at: ~(s(idx) > 0), (n,), "bool")
-                else:
-                    mask = snp.ndarray.from_elem(lambda idx: True, (n,), "bool")
-                if actual is not None:
-                    got = actual.pop(0) if actual else None
-                    prove("sel.one_mask_per_owned_block[cpu%d,level%d]" % (c, l + 1), got is not None)
-                    if got is not None:
-                        prove("sel.length[cpu%d,level%d]" % (c, l + 1), got.ndim == 1 and bool(got.shape[0] == n))
-                        r0 = core.fresh_int("selrow_%d_%d" % (c, l), 0, register=False)
-                        core.assume(r0 < n)
-                        prove("sel.is_leaf_mask[cpu%d,level%d]" % (c, l + 1),
-                              SV(core.bterm(snp._to_bool(got.elem((r0,)))) == core.bterm(snp._to_bool(mask.elem((r0,)))), "b"))
-                        mask = got
-                masks.append(mask)
-
-                def piece(fn, dt="float64", n=n, mask=mask):
-                    arr = snp.ndarray.from_elem(fn, (n,), dt)
-                    return arr[mask]
-
                 def per_ind(f, g=g, n=n):
                     # same shape of construction as a block buffer: one slice assignment per cell index
                     buf = snp.empty((n,), "float64")
@@ -218,9 +195,9 @@ class Layout:
                         buf[ind * g:(ind + 1) * g] = snp.ndarray.from_elem(lambda idx, ind=ind: f(ind, idx[0]), (g,), "float64")
                     return buf.snapshot()
 
-                pieces["level"].append(piece(lambda idx, l=l: l + 1, "int32"))
-                pieces["cpu"].append(piece(lambda idx, c=c: c, "int32"))
-                pieces["dx"].append(piece(lambda idx, half=half: half * info["boxlen"] * lib["dx"].magnitude))
+                # element functions of every variable of this block, from the grammar
+                elem_of = {"level": (lambda idx, l=l: l + 1), "cpu": (lambda idx, c=c: c),
+                           "dx": (lambda idx, half=half: half * info["boxlen"] * lib["dx"].magnitude)}
                 for dd in range(self.ndim):
                     k = "position_" + "xyz"[dd]
 
@@ -229,12 +206,56 @@ class Layout:
                         xg = smisc.decode(fa, "d", a["xg"][dd] + 8 * j)
                         return (xg + (bit - 0.5) * half - xb[dd]) * info["boxlen"] * lib[k].magnitude
 
-                    pieces[k].append(piece(per_ind(pos_fn)))
+                    elem_of[k] = per_ind(pos_fn)
                 for iv, name in enumerate(self.hydro_vars):
                     def val_fn(ind, j, iv=iv, v=v, name=name, fh=fh):
                         return smisc.decode(fh, "d", v[ind][iv] + 8 * j) * lib[name].magnitude
 
-                    pieces[name].append(piece(per_ind(val_fn)))
+                    elem_of[name] = per_ind(val_fn)
+
+                keep = True if level_pred is None else bool(level_pred(l + 1))
+                if not keep:
+                    base = lambda idx: False  # noqa: E731
+                elif l < lmax - 1:
+                    base = lambda idx, s=son_at: ~(s(idx) > 0)  # noqa: E731
+                else:
+                    base = lambda idx: True  # noqa: E731
+                if extra_mask is not None:
+                    def mfn(idx, base=base, elem_of=elem_of, c=c, l=l):
+                        b = base(idx)
+                        e = extra_mask(c, l, lambda name: elem_of[name](idx))
+                        if b is True:
+                            return e
+                        if b is False:
+                            return False
+                        return SV.lift(b) & SV.lift(e)
+                else:
+                    mfn = base
+                mask = snp.ndarray.from_elem(mfn, (n,), "bool")
+                if actual is not None:
+                    got = actual.pop(0) if actual else None
+                    prove("sel.one_mask_per_owned_block[cpu%d,level%d]" % (c, l + 1), got is not None)
+                    if got is not None:
+                        prove("sel.length[cpu%d,level%d]" % (c, l + 1), core.conj(got.ndim == 1, got.shape[0] == n))
+                        r0 = core.fresh_int("selrow_%d_%d" % (c, l), 0, register=False)
+                        core.assume(r0 < n)
+                        prove("sel.is_the_specified_mask[cpu%d,level%d]" % (c, l + 1),
+                              SV(core.bterm(snp._to_bool(got.elem((r0,)))) == core.bterm(snp._to_bool(mask.elem((r0,)))), "b"))
+                        mask = got
+                masks.append(mask)
+
+                def piece(fn, dt="float64", n=n, mask=mask):
+                    arr = snp.ndarray.from_elem(fn, (n,), dt)
+                    return arr[mask]
+
+                pieces["level"].append(piece(elem_of["level"], "int32"))
+                pieces["cpu"].append(piece(elem_of["cpu"], "int32"))
+                pieces["dx"].append(piece(elem_of["dx"]))
+                for dd in range(self.ndim):
+                    k = "position_" + "xyz"[dd]
+                    pieces[k].append(piece(elem_of[k]))
+                for name in self.hydro_vars:
+                    pieces[name].append(piece(elem_of[name]))
         if actual is not None:
             prove("sel.no_other_masks", len(actual) == 0)
         return pieces, masks
@@ -274,7 +295,7 @@ def compare_mesh(tag, layout, out, pieces, lib, ndim, names=None):
             arr = getattr(mesh["position"], k[-1])
         else:
             arr = mesh[k]
-        prove("%s.length[%s]" % (tag, k), arr._array.ndim == 1 and bool(arr._array.shape[0] == total))
+        prove("%s.length[%s]" % (tag, k), core.conj(arr._array.ndim == 1, arr._array.shape[0] == total))
         want = snp.concatenate(pieces[k]) if len(pieces[k]) > 1 else pieces[k][0]
         q = core.fresh_int("row_%s" % k, 0)
         core.assume(q < total)
